@@ -147,7 +147,48 @@ def pick_ok(rng):
     return rng.choice(stl) if rng.random() < 0.6 else rng.choice(names)
 
 
+def gen_lib(rng, index, tier):
+    """library mode: the parser's cacheable directory is a private one (sim/corpus.LIB); programs differ in the
+    values the cached macros see (rep counts from global labels / constants), and a library file may be edited
+    WHILE a call is parsing (after it was read) or between calls"""
+    texts = dict(corpus.LIB)
+    ops = []
+    nops = rng.randint(3, 7)
+    w = rng.choice([16, 32, 64])
+    werror = rng.random() < 0.7
+    for i in range(nops):
+        r = rng.random()
+        edit = None
+        if r < 0.3 and i < nops - 1:
+            name = rng.choice(sorted(corpus.LIB_EDITS))
+            cands = [e for e in corpus.LIB_EDITS[name] if e[0] in texts[name]]
+            if cands:
+                a, b = rng.choice(cands)
+                edit = {'file': name, 'new_text': texts[name].replace(a, b, 1),
+                        'at_open': rng.choice([1, 2, None])}      # during the parse (after la/lb were read) or after the call
+        k, k2 = rng.choice([1, 2, 3, 5]), rng.choice([0, 1, 2])
+        use = rng.sample(['stubs', 'twice', 'grid', 'pick', 'wf'], rng.randint(1, 3))
+        if edit and edit['file'] == 'lb.fj' and edit['at_open'] == 1:
+            edit['at_open'] = 2           # lb is being opened at open #1: edit it only after it was read
+        cfg = {'program': f'lib:{k}:{k2}:{"+".join(use)}',
+               'files': [['la', 'lib', ['la.fj', texts['la.fj']]], ['lb', 'lib', ['lb.fj', texts['lb.fj']]],
+                         ['f1', 'user', corpus.lib_program(k, k2, use)]],
+               'w': w if rng.random() < 0.7 else rng.choice([16, 32, 64]), 'version': rng.choice([0, 1, 2, 3]), 'flags': 0,
+               'preset': 0, 'werror': werror if rng.random() < 0.8 else (not werror), 'debug': rng.random() < 0.7}
+        kind = 'assemble'
+        op = {'kind': kind, 'cfg': cfg, 'depth': rng.choice([None, None, 900, 40]), 'edit': edit}
+        if rng.random() < 0.12:
+            op = {'kind': 'sigint', 'cfg': cfg, 'depth': None, 'n': int(10 ** rng.uniform(0, 4.5)), 'edit': edit}
+        ops.append(op)
+        if edit:
+            texts[edit['file']] = edit['new_text']
+    ops[-1]['probe'] = True
+    return {'ops': ops, 'seed': rng.getrandbits(32), 'lib_mode': True}
+
+
 def gen(rng, index, tier):
+    if index % 4 == 1:
+        return gen_lib(rng, index, tier)
     nops = rng.randint(2, 10 if tier == 'thorough' else 7)
     ops = []
     okn, failn = sorted(corpus.OK), sorted(corpus.FAIL)
@@ -259,9 +300,22 @@ def run_history(case):
                 return _StatProxy(st, state['mtime_delta'])
         return st
 
+    def do_edit():
+        ed = state.get('edit')
+        if ed and not state.get('edit_done'):
+            state['edit_done'] = True
+            p = libdir / ed['file']
+            with io.open(p, 'w') as f:
+                f.write(ed['new_text'])
+            st = os.stat(p)
+            os.utime(p, ns=(st.st_atime_ns, st.st_mtime_ns + 1_000_000_007))
+
     def open_wrapper(self, *a, **kw):
         mode = a[0] if a else kw.get('mode', 'r')
         if str(self).endswith('.fj') and mode == 'r':
+            ed = state.get('edit')
+            if ed and ed.get('at_open') is not None and state['open_calls'] == ed['at_open']:
+                do_edit()              # a concurrent save of a library file that this call has already read
             state['open_calls'] += 1
             if state['open_fail_at'] is not None and state['open_calls'] - 1 == state['open_fail_at']:
                 state['fired'] = True
@@ -272,6 +326,14 @@ def run_history(case):
     Path.open = open_wrapper
     base = C.scratch_dir() / f'hist-{os.getpid()}'
     base.mkdir(exist_ok=True)
+    libdir = None
+    if case.get('lib_mode'):
+        libdir = base / 'lib'
+        libdir.mkdir(exist_ok=True)
+        for name, text in corpus.LIB.items():
+            (libdir / name).write_text(text)
+        fj_parser._STL_DIR = libdir.resolve()      # the documented seam ('module-level so tests can redirect it')
+        stl_dir = str(libdir.resolve())
     sink = io.StringIO()
     for oi, op in enumerate(case['ops']):
         rec = {'i': oi, 'kind': op['kind']}
@@ -284,9 +346,13 @@ def run_history(case):
         d = base / f'op{oi}'
         d.mkdir(exist_ok=True)
         tuples = []
+        state['edit'] = op.get('edit')
+        state['edit_done'] = False
         for short, kind, ref in cfg['files']:
             if kind == 'stl':
                 tuples.append((short, stl_paths[ref]))
+            elif kind == 'lib':
+                tuples.append((short, libdir / ref[0]))
             else:
                 p = d / f'u{len(tuples)}.fj'
                 p.write_text(ref)
@@ -294,7 +360,7 @@ def run_history(case):
         out, dbg = f'/simfs/h{oi}.fjm', (f'/simfs/h{oi}.fjd' if cfg['debug'] else None)
         # cache state before the call (observed, never modified)
         keys = list(fj_parser._stl_prefix_cache.keys())
-        nstl = sum(1 for f in cfg['files'] if f[1] == 'stl')
+        nstl = sum(1 for f in cfg['files'] if f[1] in ('stl', 'lib'))
         if nstl == 0:
             rec['cache'] = 'no-stl'
         elif not keys:
@@ -354,6 +420,9 @@ def run_history(case):
         if rec['outcome'] == 'ok':
             rec['fjm'] = hashlib.sha256(FS.files.get(out, b'')).hexdigest()
             rec['fjd'] = hashlib.sha256(FS.files.get(dbg, b'')).hexdigest() if dbg else None
+        if op.get('edit'):
+            rec['edit_during_parse'] = bool(state.get('edit_done'))
+            do_edit()                  # not reached during the call (warm cache, early failure): save it now
         rec['reclimit'] = sys.getrecursionlimit()
         sink.seek(0)
         sink.truncate()
@@ -416,6 +485,10 @@ def run(case):
             cur = faults.setdefault(fk, [0, 0])
             cur[0] += 1
             cur[1] += 1 if rec.get('fired') else 0
+        if op.get('edit'):
+            cur = faults.setdefault('library-file-saved-during-parse', [0, 0])
+            cur[0] += 1
+            cur[1] += 1 if rec.get('edit_during_parse') else 0
         if kind == 'mtime_jump':
             cur = faults.setdefault('stl-mtime-jump', [0, 0])
             cur[0] += 1
